@@ -780,11 +780,21 @@ func init() {
 		return `
 func buildHandler(opt serveOpt) http.Handler {
 	if opt.Entry == 1 && opt.Mw == 0 && !opt.ErrH {
+		// the router is the caller's: the caller may serve what the function returns or the router it handed in
+		m := ` + newMux + `
 		if opt.Base != "" {
-			return HandlerFromMuxWithBaseURL(` + si + `, ` + newMux + `, opt.Base)
+			h := HandlerFromMuxWithBaseURL(` + si + `, m, opt.Base)
+			if len(opt.CType)%2 == 0 {
+				return m
+			}
+			return h
 		}
 		if len(opt.CType)%2 == 0 {
-			return HandlerFromMux(` + si + `, ` + newMux + `)
+			h := HandlerFromMux(` + si + `, m)
+			if len(opt.CType)%4 == 0 {
+				return m
+			}
+			return h
 		}
 		return Handler(` + si + `)
 	}
